@@ -377,7 +377,15 @@ fn semantic(ty: &str, c: &Comp, v: &str) -> Verdict {
             if ["BEN", "OUR", "SHA"].contains(&v) { Verdict::Accept } else { Verdict::Reject("code:not-BEN-OUR-SHA".into()) }
         }
         "ref" => {
-            if v.starts_with('/') || v.ends_with('/') || v.contains("//") { Verdict::Reject("ref:slash-rule".into()) } else { Verdict::Accept }
+            if ty == "Field61" {
+                // the account owner's reference of a statement line is plain 16x; a slash next to the "//" that
+                // introduces the bank reference makes the split ambiguous: not judged
+                if v.contains('/') { Verdict::Unspecified("field61-reference-with-slash".into()) } else { Verdict::Accept }
+            } else if v.starts_with('/') || v.ends_with('/') || v.contains("//") {
+                Verdict::Reject("ref:slash-rule".into())
+            } else {
+                Verdict::Accept
+            }
         }
         "func" => {
             // days are only allowed with the NOTICE function: other codes are not judged here
@@ -876,6 +884,32 @@ pub fn candidates(spec: &Spec, k: usize, r: &mut Rng, random_extra: usize) -> Ve
                         let v: String = base11.chars().enumerate().map(|(i, x)| if i == pidx { *ch } else { x }).collect();
                         let over = |l2: usize, c2: usize, rep: usize| if l2 == li && c2 == ci && rep == 0 { Some(format!("{}{}", c.lit, v)) } else { None };
                         out.push(Candidate { content: render(spec, k, &over, &default_counts), component: comp_label.clone(), class: format!("class={cname}@{pname}") });
+                    }
+                }
+            }
+            // code words of *other* fields in a closed code list, and a lone special character as the whole value
+            if matches!(c.name.as_str(), "code23b" | "code71a" | "func" | "ttype" | "dcmark" | "dcmark61") {
+                for wd in ["CHQB", "PHON", "HOLD", "SDVA", "CRED", "SPRI", "SHA", "OUR", "BEN", "NAUT", "AUTH", "RFDD", "C", "D", "RC", "RD", "N", "S", "F"] {
+                    let over = |l2: usize, c2: usize, rep: usize| if l2 == li && c2 == ci && rep == 0 { Some(format!("{}{}", c.lit, wd)) } else { None };
+                    out.push(Candidate { content: render(spec, k, &over, &default_counts), component: comp_label.clone(), class: format!("other-code-word={wd}") });
+                }
+            }
+            if free {
+                for ch in ["/", "-", ":", ",", ".", "+", " "] {
+                    let over = |l2: usize, c2: usize, rep: usize| if l2 == li && c2 == ci && rep == 0 { Some(format!("{}{}", c.lit, ch)) } else { None };
+                    out.push(Candidate { content: render(spec, k, &over, &default_counts), component: comp_label.clone(), class: format!("lone-character={ch}") });
+                    if spec.lines.iter().skip(li + 1).any(|x| x.optional) || spec.lines[li].comps.iter().skip(ci + 1).any(|x| x.optional) {
+                        let over2 = |l2: usize, c2: usize, rep: usize| {
+                            if l2 == li && c2 == ci && rep == 0 {
+                                Some(format!("{}{}", c.lit, ch))
+                            } else if l2 == li && c2 > ci && spec.lines[l2].comps[c2].optional {
+                                Some(String::new())
+                            } else {
+                                None
+                            }
+                        };
+                        let counts2 = |l2: usize| if l2 > li && spec.lines[l2].optional { 0 } else { default_counts(l2) };
+                        out.push(Candidate { content: render(spec, k, &over2, &counts2), component: comp_label.clone(), class: format!("lone-character={ch},rest-absent") });
                     }
                 }
             }
